@@ -10,6 +10,29 @@ NOTE = ("trusted: clang 14 front end + CFG builder, cmake's compile database, th
         "The check decides the listed structural clauses only - see DESIGN.md section 5 'Not decided'.")
 
 CLAIMS = {
+    "C03": dict(
+        technique="must-facts dataflow on the three check() functions + verbatim value-flow (carrier) analysis + CFG path rules",
+        text="Static, all inputs/environments: in option/multi_option/toggle::check the environment lookup is proven to be dominated by "
+             "has_env and 'nothing given on the command line', every use of the environment value by its non-emptiness test, the default by "
+             "not-given with no path mixing environment and default, the required-option error by its full condition; dirty_ (provided) is set "
+             "on every command-line and environment path and on no default path; the stored environment value is a copy-only carrier of "
+             "env::get (pieces via getline(...,';')). Decides order/conditions/verbatimness, not value contents.",
+        ref="5/C03"),
+    "C11": dict(
+        technique="must-facts dataflow + boolean-skeleton equivalence + closed-vocabulary table comparison",
+        text="Static, all inputs: toggle::update_value performs exactly one count update per path of the branch's required form (=0 for --no-, "
+             "+= letter multiplicity for short tokens, +1 otherwise) under the reversal, conflict and no-value guards (all raising parsing_error); "
+             "toggle::matches is equivalent to its specification formula; parse_env_value accepts exactly the 30 documented words with the word "
+             "compared verbatim, anything else raises; toggle::check source order as in C03. Mixed declared/undeclared bundles are not decided.",
+        ref="5/C11"),
+    "C12": dict(
+        technique="iteration-path enumeration of the token loop under must-facts + carrier analysis + index-normalisation facts",
+        text="Static, all argument vectors: once the only-positionals mode is on (and for every value token) an iteration of parse()'s token "
+             "loop can only append the token verbatim or raise the limit error; the mode flag(s) are monotone and switched on exactly by `--` "
+             "and by the first positional in greedy mode; every append is dominated by the limit comparison whose other edge raises; "
+             "arguments::get(int) normalises negative indices and uses at(); parse(argc, argv) syntax-checks tokens only before `--`. "
+             "The arithmetic of 'at most n' is not decided.",
+        ref="5/C12"),
     "C04": dict(
         technique="context-sensitive must-facts dataflow over the call graph below parse() + truth-table entailment of guard preconditions",
         text="Static, all inputs: every raise/throw site reachable from either parse() overload is, in each of its calling contexts, "
